@@ -474,6 +474,10 @@ class NetworkGraph(AbstractBaseIR):
             inputs = self[f"{node}/{succ}"]['inputs']
             if var not in inputs:
                 inputs[var] = {'sources': {op}}
+            # operators of the same node keep reading the variables themselves, not the buffered output of the operator
+            for in_name, inp in inputs.items():
+                if op in inp.get('sources', ()):
+                    inp.setdefault('var', in_name)
 
         # Point the edge at the buffered source variable
         self.edges[s, t, e]['source_var'] = f"{op}/{buf_out}"
@@ -708,8 +712,11 @@ class NetworkGraph(AbstractBaseIR):
             inputs = self[f"{node}/{succ}"]['inputs']
             if var not in inputs.keys():
                 inputs[var] = {'sources': {op}}
-            # operators of the same node keep reading the variable itself, not the buffered output of the operator
-            inputs[var].setdefault('var', var)
+            # operators of the same node keep reading the variables themselves (the delayed one and, if the edge leaves a
+            # variable that is not the operator's output, the real output), not the buffered output of the operator
+            for in_name, inp in inputs.items():
+                if op in inp.get('sources', ()):
+                    inp.setdefault('var', in_name)
 
         # update edge information
         idx_l = 0
